@@ -178,10 +178,13 @@ CHECKS = {
                 "age alarm is raised iff no backup or age >= threshold, empty trailing groups skipped; duration = number x unit. "
                 "Tied to the code by writing healthy histories and every manifest-level corruption with the independent encoder, "
                 "verifying them through the real public Storage API and comparing with the extracted model; the real "
-                "check_backups is run under a fake clock at threshold -1 s / 0 / +1 s for m/h/d.",
+                "check_backups is run under a fake clock at threshold -1 s / 0 / +1 s for m/h/d; histories of real completing, failing "
+                "(injected storage faults) and killed runs are verified after every run; and the real `vsb upload` is run against the "
+                "provider emulator with the threshold in the configuration and a faked clock: the alarm lines for the local storage and "
+                "for the cloud must agree with the alarm model.",
         "note": "Names are classified (day numbers, hash ids) in the model; the regex crate and chrono name parsing are trusted. "
                 "Open known finding F3 (empty group left by a failed run, reused on a later date) is reported as KNOWN-FINDING when "
-                "a history of that class is exercised. Histories of real failing / killed runs belong to the run driver.",
+                "a history of that class is exercised (likewise F10: a tree without regular files).",
         "technique": "Coq proof (executable verifier <-> declarative predicate; run invariants) + differential correspondence on corrupted storages",
         "design": "7/C13",
     },
